@@ -642,12 +642,7 @@ impl<'a> UserModel<'a> {
     /// See also:
     /// * [Model::delete_sheet]
     pub fn delete_sheet(&mut self, sheet: u32) -> Result<(), String> {
-        let worksheet = self.model.workbook.worksheet(sheet)?;
-
-        self.push_diff_list(vec![Diff::DeleteSheet {
-            sheet,
-            old_data: Box::new(worksheet.clone()),
-        }]);
+        let old_data = Box::new(self.model.workbook.worksheet(sheet)?.clone());
 
         let sheet_count = self.model.workbook.worksheets.len() as u32;
         // If we are deleting the last sheet we need to change the selected sheet
@@ -658,6 +653,7 @@ impl<'a> UserModel<'a> {
         }
 
         self.model.delete_sheet(sheet)?;
+        self.push_diff_list(vec![Diff::DeleteSheet { sheet, old_data }]);
         Ok(())
     }
 
@@ -720,6 +716,7 @@ impl<'a> UserModel<'a> {
     /// * [Model::set_sheet_state]
     /// * [UserModel::unhide_sheet]
     pub fn hide_sheet(&mut self, sheet: u32) -> Result<(), String> {
+        let old_value = self.model.workbook.worksheet(sheet)?.state.clone();
         let sheet_count = self.model.workbook.worksheets.len() as u32;
         for index in 1..sheet_count {
             let sheet_index = (sheet + index) % sheet_count;
@@ -730,13 +727,12 @@ impl<'a> UserModel<'a> {
                 break;
             }
         }
-        let old_value = self.model.workbook.worksheet(sheet)?.state.clone();
+        self.model.set_sheet_state(sheet, SheetState::Hidden)?;
         self.push_diff_list(vec![Diff::SetSheetState {
             index: sheet,
             new_value: SheetState::Hidden,
             old_value,
         }]);
-        self.model.set_sheet_state(sheet, SheetState::Hidden)?;
         Ok(())
     }
 
@@ -747,12 +743,12 @@ impl<'a> UserModel<'a> {
     /// * [UserModel::hide_sheet]
     pub fn unhide_sheet(&mut self, sheet: u32) -> Result<(), String> {
         let old_value = self.model.workbook.worksheet(sheet)?.state.clone();
+        self.model.set_sheet_state(sheet, SheetState::Visible)?;
         self.push_diff_list(vec![Diff::SetSheetState {
             index: sheet,
             new_value: SheetState::Visible,
             old_value,
         }]);
-        self.model.set_sheet_state(sheet, SheetState::Visible)?;
         Ok(())
     }
 
@@ -1369,6 +1365,10 @@ impl<'a> UserModel<'a> {
         column_end: i32,
         width: f64,
     ) -> Result<(), String> {
+        // Validate the end of the range first so that a failure cannot leave a partial edit
+        if column_start <= column_end && !is_valid_column_number(column_end) {
+            return Err(format!("Column number '{column_end}' is not valid."));
+        }
         let mut diff_list = Vec::new();
         for column in column_start..=column_end {
             let old_value = self.model.get_column_width(sheet, column)?;
@@ -1395,6 +1395,10 @@ impl<'a> UserModel<'a> {
         column_end: i32,
         hidden: bool,
     ) -> Result<(), String> {
+        // Validate the end of the range first so that a failure cannot leave a partial edit
+        if column_start <= column_end && !is_valid_column_number(column_end) {
+            return Err(format!("Column number '{column_end}' is not valid."));
+        }
         let mut diff_list = Vec::new();
         for column in column_start..=column_end {
             let old_value = self
@@ -1463,6 +1467,10 @@ impl<'a> UserModel<'a> {
         row_end: i32,
         hidden: bool,
     ) -> Result<(), String> {
+        // Validate the end of the range first so that a failure cannot leave a partial edit
+        if row_start <= row_end && !is_valid_row(row_end) {
+            return Err(format!("Row number '{row_end}' is not valid."));
+        }
         let mut diff_list = Vec::new();
         for row in row_start..=row_end {
             let old_value = self.model.workbook.worksheet(sheet)?.is_row_hidden(row)?;
@@ -1518,6 +1526,10 @@ impl<'a> UserModel<'a> {
         row_end: i32,
         height: f64,
     ) -> Result<(), String> {
+        // Validate the end of the range first so that a failure cannot leave a partial edit
+        if row_start <= row_end && !is_valid_row(row_end) {
+            return Err(format!("Row number '{row_end}' is not valid."));
+        }
         let mut diff_list = Vec::new();
         for row in row_start..=row_end {
             let old_value = self.model.get_row_height(sheet, row)?;
@@ -1575,12 +1587,13 @@ impl<'a> UserModel<'a> {
     /// * [Model::set_frozen_rows()]
     pub fn set_frozen_rows_count(&mut self, sheet: u32, frozen_rows: i32) -> Result<(), String> {
         let old_value = self.model.get_frozen_rows_count(sheet)?;
+        self.model.set_frozen_rows(sheet, frozen_rows)?;
         self.push_diff_list(vec![Diff::SetFrozenRowsCount {
             sheet,
             new_value: frozen_rows,
             old_value,
         }]);
-        self.model.set_frozen_rows(sheet, frozen_rows)
+        Ok(())
     }
 
     /// Sets the number of frozen columns in sheet
@@ -1593,12 +1606,13 @@ impl<'a> UserModel<'a> {
         frozen_columns: i32,
     ) -> Result<(), String> {
         let old_value = self.model.get_frozen_columns_count(sheet)?;
+        self.model.set_frozen_columns(sheet, frozen_columns)?;
         self.push_diff_list(vec![Diff::SetFrozenColumnsCount {
             sheet,
             new_value: frozen_columns,
             old_value,
         }]);
-        self.model.set_frozen_columns(sheet, frozen_columns)
+        Ok(())
     }
 
     /// Paste `styles` in the selected area
@@ -2191,8 +2205,8 @@ impl<'a> UserModel<'a> {
             scope,
             old_value,
         }];
-        self.push_diff_list(diff_list);
         self.model.delete_defined_name(name, scope)?;
+        self.push_diff_list(diff_list);
         self.evaluate_if_not_paused();
         Ok(())
     }
@@ -2269,8 +2283,9 @@ impl<'a> UserModel<'a> {
             old_value: self.get_timezone(),
             new_value: timezone.to_string(),
         }];
+        self.model.set_timezone(timezone)?;
         self.push_diff_list(diff_list);
-        self.model.set_timezone(timezone)
+        Ok(())
     }
 
     /// Sets the locale for the model
@@ -2279,8 +2294,9 @@ impl<'a> UserModel<'a> {
             old_value: self.get_locale(),
             new_value: locale.to_string(),
         }];
+        self.model.set_locale(locale)?;
         self.push_diff_list(diff_list);
-        self.model.set_locale(locale)
+        Ok(())
     }
 
     /// Gets the timezone of the model
